@@ -79,7 +79,9 @@ impl ChannelParser {
                     }) = &last_segment.arguments
                     {
                         if let Some(GenericArgument::Type(inner_type)) = args.first() {
-                            return Some(Self::type_to_string(inner_type));
+                            return Some(TypeResolver::strip_path_qualifiers(
+                                &Self::type_to_string(inner_type),
+                            ));
                         }
                     }
                 }
